@@ -16,7 +16,11 @@ C->S (events recorded from the code in /repo, every expected value computed by T
   Trace_Adapter   create_AES128 histories on shared / separate objects, pad, unregistered base class
 The harness holds no model: it generates inputs, calls the real code / openssl and logs.  No recording step assumes
 that the library behaves: a call that raises or returns something that is not a byte string becomes an event TLC rejects
-(exit 1), never a harness crash (exit 2 is for TLC / openssl / java failures only)."""
+(exit 1), never a harness crash (exit 2 is for TLC / openssl / java failures only).
+Two habits of the recorders: (1) objects the library returns are KEPT, not copied, until every call of the history is done
+(Raw / Rec.settle): a result that a later call on the same object overwrites, or that is the same mutable object as another
+result or an argument, is then seen; (2) every option compared with a constant (padding strings, mode names, block_size,
+segment size, keys) is handed over both as the module constant / literal and as an EQUAL object built at run time."""
 import io, os, json, shutil, subprocess, concurrent.futures as cf
 
 from ..common import SPEC, Scratch, rng, MachineryError
@@ -1150,7 +1154,8 @@ def _redo(evs):
 def replay(path):
     """bin/check C16 --replay <file>: re-executes the recorded calls on /repo and lets TLC judge them again.
     Exit 0 = accepted now, 1 = still rejected."""
-    d = json.load(open(path))
+    with open(path) as fh:
+        d = json.load(fh)
     data = d["data"]
     evs = _redo(data.get("group") or [data["event"]])
     with Scratch("c16r") as wd:
